@@ -9,6 +9,7 @@ import (
 	"go/token"
 	"go/types"
 	"sort"
+	"strconv"
 	"strings"
 
 	"golang.org/x/tools/go/ssa"
@@ -601,6 +602,37 @@ func (fx *FnExec) havocLoc(env *CEnv, old, st *State, x *CExpr) []func() {
 		if x.Name == "opaque" {
 			// state private to the object behind an interface / handle: nothing of the modelled heap changes
 			return nil
+		}
+		if x.Name == "families" {
+			// families("F|pkg.Type|field|", "M|elemtype|") : every cell of these heap families, on all objects
+			var prefixes []string
+			for _, a := range x.Args {
+				p, err := strconv.Unquote(a.Name)
+				if err != nil {
+					env.fail("modifies families(...): string literals expected")
+				}
+				prefixes = append(prefixes, p)
+			}
+			return []func(){func() {
+				keys := make([]string, 0, len(fx.famSort))
+				for key := range fx.famSort {
+					keys = append(keys, key)
+				}
+				sort.Strings(keys)
+				for _, key := range keys {
+					if !strings.HasPrefix(key, "G|") {
+						fx.family(st, key, fx.famSort[key])
+					}
+				}
+				st.epoch = fx.nextEpoch()
+				for _, key := range keys {
+					for _, p := range prefixes {
+						if strings.HasPrefix(key, p) {
+							delete(st.heap, key)
+						}
+					}
+				}
+			}}
 		}
 		if x.Name == "mapof" && len(x.Args) == 1 {
 			// the entries of one Go map
